@@ -6,6 +6,7 @@ import Martian.Props.C06.Sched
 import Martian.Props.C06.Facts
 import Martian.Props.C06.Fault
 import Martian.Props.C06.Chain
+import Martian.Props.C06.Usable
 /-!
 C06 — Forged certificates verify for the requested host under the configured CA.
 Only property theorems and non-vacuity examples live here.
